@@ -27,6 +27,9 @@ class RtGen:
                 out.append("%" + r.choice(lower_params) + "%")
             elif k < 0.5:
                 out.append("%%")
+            elif k < 0.5 + self.w["failing"]:
+                # chunks that fail at run time (first, middle or last chunk of the pattern alike)
+                out.append(r.choice(['%env("GV_NOPE")%', '%fn("fail")%', '%envInt("GV_SET")%', '%todo("inline")%', '%envInt("GV_NOPE")%']))
             elif k < 0.7:
                 out.append(r.choice(['%env("GV_SET")%', '%env("GV_NOPE", "dflt")%', '%envInt("GV_INT")%', '%envInt("GV_NOPE", 7)%', '%fn("x", 3)%', '%lk("k")%']))
             else:
